@@ -111,7 +111,8 @@ pub fn gen_script(rng: &mut Rng, fl: Flavor, nops: usize) -> Script {
         } else if roll < 50 {
             Op::Pump
         } else if roll < 62 {
-            Op::Advance(*rng_pick(rng, &[1u64, 20, 100, 400, 600, 1100, 2500, 5000]))
+            // includes values aligned with the server's debounce constants (500 ms diagnostics, 1 s reindex, 2 s config reload)
+            Op::Advance(*rng_pick(rng, &[1u64, 1, 2, 3, 20, 100, 400, 497, 499, 500, 501, 600, 997, 999, 1000, 1001, 1100, 1997, 1999, 2000, 2001, 2500, 5000]))
         } else if roll < 70 && fl.disk_events {
             Op::Disk(d, !rng.chance(1, 4))
         } else if roll < 76 && fl.reloads {
@@ -132,6 +133,62 @@ pub fn gen_script(rng: &mut Rng, fl: Flavor, nops: usize) -> Script {
         ops.push(op);
     }
     Script { docs, ops, sched_seed: rng.next_u64() | 1, pull_diagnostics: false, enable_reindex: fl.saves && rng.bool() }
+}
+
+/// Targeted family: document traffic placed right at the virtual instant at which a debounced
+/// task of the server fires (`delay_ms` after `trigger`), separated by 1 ms steps, so that —
+/// together with the sleeping schedule points of hook H3 — notifications arrive while that task
+/// is between two of its critical sections.
+pub fn gen_race_script(rng: &mut Rng, trigger_reload: bool, delay_ms: u64) -> Script {
+    let ndocs = rng.range(1, 3);
+    let docs: Vec<DocSpec> = (0..ndocs).map(|i| DocSpec { name: format!("doc{i}.lua"), on_disk: rng.chance(2, 3) }).collect();
+    let mut open = vec![false; ndocs];
+    let mut ops = Vec::new();
+    // prologue: open (and edit) some documents
+    for d in 0..ndocs {
+        if rng.chance(3, 4) {
+            ops.push(Op::Open(d));
+            open[d] = true;
+            if rng.bool() {
+                ops.push(Op::Change(d));
+            }
+        }
+    }
+    ops.push(Op::Advance(3000));
+    // the trigger
+    if trigger_reload {
+        ops.push(Op::Emmyrc(rng.below(4) as u32));
+    } else {
+        let d = rng.below(ndocs);
+        if !open[d] {
+            ops.push(Op::Open(d));
+            open[d] = true;
+        } else {
+            ops.push(Op::Change(d));
+        }
+    }
+    // arrive a few ms around the instant the debounced task fires
+    let jitter = rng.below(5) as u64; // 0..4 -> -2..+2
+    ops.push(Op::Advance(delay_ms + jitter - 2));
+    for _ in 0..rng.range(2, 8) {
+        match rng.below(6) {
+            0 | 1 => ops.push(Op::Advance(1)),
+            2 => ops.push(Op::Pump),
+            _ => {
+                let d = rng.below(ndocs);
+                if !open[d] {
+                    ops.push(Op::Open(d));
+                    open[d] = true;
+                } else if rng.chance(2, 5) {
+                    ops.push(Op::Close(d));
+                    open[d] = false;
+                } else {
+                    ops.push(Op::Change(d));
+                }
+            }
+        }
+    }
+    Script { docs, ops, sched_seed: rng.next_u64() | 1, pull_diagnostics: false, enable_reindex: false }
 }
 
 fn rng_pick<'a, T>(rng: &mut Rng, xs: &'a [T]) -> &'a T {
